@@ -142,7 +142,7 @@ def get_ensures(m, stats=True):
     K = 's2s(key)'
     e = [
         CFG_FRAME,
-        ('post_wf', ['C04', 'C06', 'C13', 'C01', 'C03', 'C09', 'C10', 'C11'], 'wf(%s, final(self).order@)' % M1),
+        ('post_wf', ['C04', 'C06', 'C13', 'C01', 'C03', 'C09', 'C10', 'C11', 'C05', 'C07', 'C08'], 'wf(%s, final(self).order@)' % M1),
         ('never_serves_expired', ['C06'], 'res is Some ==> %s.contains_key(%s) && !expired(%s[%s], old(self).ttl)' % (M0, K, M0, K)),
         ('value_of_key', ['C01'], 'res is Some ==> cloned(%s[%s].value, res->Some_0)' % (M0, K)),
         ('serves_unexpired', ['C03', 'C06'], '%s.contains_key(%s) && !expired(%s[%s], old(self).ttl) ==> res is Some' % (M0, K, M0, K)),
@@ -187,7 +187,7 @@ def evict_requires(m, o):
 
 def evict_ensures(m, o):
     return [
-        ('post_wf', ['C04', 'C01', 'C03', 'C09', 'C10', 'C11'], 'wf(final(%s)@, final(%s)@)' % (m, o)),
+        ('post_wf', ['C04', 'C01', 'C03', 'C09', 'C10', 'C11', 'C05', 'C07', 'C08', 'C13'], 'wf(final(%s)@, final(%s)@)' % (m, o)),
         ('no_overflow_noop', ['C04', 'C03'], '(limit is None || old(%s)@.len() <= limit->Some_0) ==> final(%s)@ == old(%s)@ && final(%s)@ == old(%s)@' % (o, m, m, o, o)),
         ('overflow_one_victim', ['C04', 'C07', 'C08'], '(limit is Some && old(%s)@.len() > limit->Some_0) ==> '
          'exists|v: String| sync_victim_ok(policy, old(%s)@, old(%s)@, v, ttl) && final(%s)@ == #[trigger] old(%s)@.remove(v) && final(%s)@ == rm1(old(%s)@, v)' % (o, m, o, m, m, o, o)),
@@ -201,7 +201,7 @@ def insert_ensures(m, stats=True):
     Q1 = 'touch(old(self).order@, %s)' % K
     e = [
         CFG_FRAME,
-        ('post_wf', ['C04', 'C13', 'C01', 'C03', 'C09', 'C10', 'C11'], 'wf(%s, final(self).order@)' % M1),
+        ('post_wf', ['C04', 'C13', 'C01', 'C03', 'C09', 'C10', 'C11', 'C05', 'C07', 'C08'], 'wf(%s, final(self).order@)' % M1),
         ('fits_exact', ['C04', 'C03'], '(old(self).limit is None || %s.len() <= old(self).limit->Some_0) ==> '
          'final(self).order@ == %s && %s.dom() == %s.dom().insert(%s)' % (Q1, Q1, M1, M0, K)),
         ('overflow_one_victim', ['C04', 'C07', 'C08'], '(old(self).limit is Some && %s.len() > old(self).limit->Some_0) ==> '
@@ -233,7 +233,7 @@ def insertm_ensures(m):
     MEMFITS = '(old(self).max_memory is None || mem_total(%s.remove(%s), rm1(%s, %s)) + value.mem() <= old(self).max_memory->Some_0)' % (M0, K, Q0, K)
     return [
         CFG_FRAME,
-        ('post_wf', ['C04', 'C05', 'C13', 'C01', 'C03', 'C09', 'C10', 'C11'], 'wf(%s, final(self).order@)' % M1),
+        ('post_wf', ['C04', 'C05', 'C13', 'C01', 'C03', 'C09', 'C10', 'C11', 'C07', 'C08'], 'wf(%s, final(self).order@)' % M1),
         ('stats_frame', ['C15'], 'final(self).stats == old(self).stats'),
         ('oversize_not_cached', ['C05'], '%s ==> %s == %s.remove(%s) && final(self).order@ == rm1(%s, %s)' % (OVERSIZE, M1, M0, K, Q0, K)),
         ('total_le_max', ['C05'], '(old(self).max_memory is Some && !%s) ==> mem_total(%s, final(self).order@) <= old(self).max_memory->Some_0' % (OVERSIZE, M1)),
@@ -297,7 +297,7 @@ def insert_result_ensures(m):
     return [
         CFG_FRAME,
         ('err_changes_nothing', ['C09'], 'value is Err ==> %s == %s && final(self).order@ == old(self).order@ && final(self).stats == old(self).stats' % (M1, M0)),
-        ('post_wf', ['C04', 'C09', 'C01', 'C03', 'C10', 'C11'], 'wf(%s, final(self).order@)' % M1),
+        ('post_wf', ['C04', 'C09', 'C01', 'C03', 'C10', 'C11', 'C05', 'C07', 'C08', 'C13'], 'wf(%s, final(self).order@)' % M1),
         ('ok_stored', ['C09', 'C01'], '(value is Ok && %s.contains_key(%s)) ==> %s[%s].value is Ok && cloned(value->Ok_0, %s[%s].value->Ok_0) && %s[%s].frequency == 0'
          % (M1, K, M1, K, M1, K, M1, K)),
         ('ok_fits_exact', ['C09', 'C03', 'C04'], '(value is Ok && (old(self).limit is None || %s.len() <= old(self).limit->Some_0)) ==> '
